@@ -140,13 +140,28 @@ def make_plugins(case):
         def source_finished(self):
             return True
 
+        def _ranges(self):
+            rs = list(zip(cuts[:-1], cuts[1:]))
+            if pk == "source" and vk in ("gap_zero", "overlap_zero"):
+                # a discontinuity with a zero-duration chunk sitting right behind it: [.., T) [T+1, T+1) [T+1, ..)
+                lo, hi = rs[at]
+                s = lo + 1 if vk == "gap_zero" else max(0, lo - 1)
+                rs[at:at + 1] = [(s, s), (s, hi)]
+            return rs
+
         def is_ready(self, chunk_i):
-            return chunk_i < len(cuts) - 1
+            return chunk_i < len(self._ranges())
 
         def compute(self, chunk_i):
             a = good_arr(ROWS)
-            lo, hi = cuts[chunk_i], cuts[chunk_i + 1]
+            lo, hi = self._ranges()[chunk_i]
             res = a[(a["time"] >= lo) & (a["endtime"] <= hi)]
+            if lo == hi:
+                res = res[:0]
+            if pk == "source" and vk in ("gap_zero", "overlap_zero"):
+                if chunk_i == at:
+                    REACHED["n"] += 1
+                return self.chunk(start=lo, end=hi, data=res)
             if pk == "source" and chunk_i == at:
                 out = corrupt(self, res, vk, lo, hi, "ev")
                 if isinstance(out, np.ndarray):
@@ -232,7 +247,12 @@ def make_plugins(case):
                 else:
                     pieces = [(start, cut[0], ev[: cut[1]]), (cut[0], end, ev[cut[1]:])]
                 for j, (s, e, d) in enumerate(pieces):
-                    if i == at and j == len(pieces) - 1:
+                    if i == at and j == len(pieces) - 1 and vk in ("gap_zero", "overlap_zero"):
+                        REACHED["n"] += 1
+                        s2 = s + 1 if vk == "gap_zero" else max(0, s - 1)
+                        yield self.chunk(start=s2, end=s2, data=d[:0])
+                        yield self.chunk(start=s2, end=e, data=d[d["time"] >= s2])
+                    elif i == at and j == len(pieces) - 1:
                         out = corrupt(self, d, vk, s, e, "vic")
                         if isinstance(out, np.ndarray):
                             out = self.chunk(start=s, end=e, data=out)
@@ -316,11 +336,13 @@ def make_plugins(case):
 
 
 APPLICABLE = {
-    "source": ["dtype_chunk", "dtype_chunk_declared", "dtype_selfchunk", "late_row", "late_row_inner", "early_row", "label", "gap", "overlap"],
+    "source": ["dtype_chunk", "dtype_chunk_declared", "dtype_selfchunk", "late_row", "late_row_inner", "early_row", "label", "gap", "overlap",
+               "gap_zero", "overlap_zero"],
     "ordinary": ["dtype_bare", "dtype_chunk", "dtype_chunk_declared", "dtype_selfchunk", "late_row", "late_row_inner", "early_row", "label"],
     "multi": ["dtype_bare", "dtype_chunk", "dtype_chunk_declared", "late_row", "late_row_inner", "label", "nondict",
               "sibling_label", "sibling_chunk"],
-    "down": ["dtype_chunk", "dtype_chunk_declared", "dtype_selfchunk", "label", "late_row", "late_row_inner", "gap", "overlap", "nongen", "nonchunk"],
+    "down": ["dtype_chunk", "dtype_chunk_declared", "dtype_selfchunk", "label", "late_row", "late_row_inner", "gap", "overlap", "nongen", "nonchunk",
+             "gap_zero", "overlap_zero"],
     "loop": ["dtype_bare", "late_row", "late_row_inner", "early_row", "dtype_chunk_declared"],
     "cut": ["dtype_bare", "late_row"],
     "window": ["dtype_bare", "late_row", "late_row_inner", "dtype_chunk_declared"],
@@ -423,7 +445,7 @@ def all_cases():
             for layout, cuts in LAYOUTS.items():
                 n = len(cuts) - 1
                 for at in sorted({0, n // 2, n - 1}):
-                    if vk in ("gap", "overlap") and at == 0:
+                    if vk in ("gap", "overlap", "gap_zero", "overlap_zero") and at == 0:
                         continue  # the first chunk of a run has no predecessor: not a violation
                     for proc in ("single_thread", "threaded_mailbox"):
                         for storage in (True, False):
